@@ -61,9 +61,9 @@ MANIFEST_ENTRY = dict(
          "written from the docstrings), ref/calendar.py. The oracle never parses the CSV file itself. Not covered: "
          "date_formatter / delimiter / numeric_format / start_period_only / name_row_transform options, hand-written "
          "CSV files, renames whose targets collide (only the pure swap is asserted), strict_names rejection, "
-         "databoxes of more than 3 (4) items in the CSV part, histories longer than 3 (4) operations. Two known "
-         "findings (known_findings.d/c19.json): IndexError when reading a file written from only-empty series; "
-         "description dropped for a series without observation on the exported span.")
+         "databoxes of more than 3 (4) items in the CSV part, histories longer than 3 (4) operations. The two defects "
+         "found here (IndexError when reading a file written from only-empty series; description dropped for a series "
+         "without observation on the exported span) were repaired in /repo (1d5a4cc, bec6a4c; DESIGN.md 9.3).")
 ASSUMPTIONS = [
     "values are compared to the declared rounding: |read - written| <= 0.5*10**-round + 4 ulp",
     "descriptions are only asserted when description_row=True on both sides",
